@@ -35,13 +35,19 @@ func c13Middleware(c *Ctx) {
 	bindings := []string{"", saml.HTTPRedirectBinding, saml.HTTPPostBinding}
 	keys := allKeys()
 	for _, kf := range keys {
-		if kf.name == "ed25519" || kf.name == "rsa_3072" || kf.name == "rsa_4096" || kf.name == "ec_521" {
+		if kf.name == "ed25519" {
 			continue
 		}
+		// every fixture key type goes through samlsp.New with and without SignRequest; the overridden-method
+		// variants use a subset of the keys
+		allVariants := !(kf.name == "rsa_3072" || kf.name == "rsa_4096" || kf.name == "ec_521")
 		for ei, ep := range eps {
 			for _, mb := range bindings {
 				// signing: off, as samlsp.New configures it (SignRequest), a method of the key's family, a method of the other family
 				for sv := 0; sv < 4; sv++ {
+					if sv >= 2 && !allVariants {
+						continue
+					}
 					if !c.Thorough() && sv == 3 && (ei+len(mb))%2 == 0 {
 						continue
 					}
@@ -70,7 +76,7 @@ func c13Middleware(c *Ctx) {
 								return
 							}
 							m.Binding = mb
-							if kf.name == "ec_384" {
+							if kf.name == "ec_384" || kf.name == "ec_521" {
 								// samlsp.New's request-tracker codec signs its cookie with ES256, which only a P-256 key can do:
 								// with a P-384/P-521 key TrackRequest fails (500) before anything is sent.  That is the tracker's
 								// matter (C16/C17); the fixed tracker keeps this case about the AuthnRequest signature.
@@ -92,7 +98,17 @@ func c13Middleware(c *Ctx) {
 								}
 							}
 							method = m.ServiceProvider.SignatureMethod
-							cert, _, _ := publishedCert(&m.ServiceProvider)
+							cert, kds, authnSigned := publishedCert(&m.ServiceProvider)
+							if sv <= 1 && ei == 0 && mb == "" {
+								// the metadata such an SP publishes
+								mo := defaultOpts()
+								mo.key, mo.cert, mo.method = kf.key, kf.cert, method
+								term, mobs := mdTerm(mo, true, cert, kds, authnSigned)
+								c.Add(c.Group("metadata", []string{"UrlEnc", "Outbound"}, "mdcase", "check_mdcases"), &Case{
+									Key:   map[string]string{"op": "metadata_advertises", "constructor": "samlsp.New", "sign_request": fmt.Sprint(sv >= 1), "key": kf.name},
+									Input: map[string]any{"constructor": "samlsp.New", "sign_request": sv >= 1, "key": kf.name, "signature_method": method},
+									Obs:   mobs, Term: term})
+							}
 							w := httptest.NewRecorder()
 							r := httptest.NewRequest("GET", "https://sp.example.com/protected?x=1", nil)
 							m.RequireAccount(http.HandlerFunc(func(w http.ResponseWriter, _ *http.Request) { w.WriteHeader(299) })).ServeHTTP(w, r)
@@ -163,8 +179,8 @@ func c13Middleware(c *Ctx) {
 						Key:   map[string]string{"op": "middleware_start_auth", "idp_endpoints": ep.name, "m_binding": mb, "signing": fmt.Sprint(sv), "key": kf.name},
 						Input: map[string]any{"idp_sso_endpoints": ssos, "middleware_binding": mb, "sign_request": sv >= 1, "signature_method": method, "key": kf.name},
 						Obs:   obs,
-						Term: fmt.Sprintf("{| mw_mbinding := %s; mw_has_redirect := %s; mw_has_post := %s; mw_method := %s; mw_kt := %d; mw_cls := %d; mw_xmlsig := %s; mw_redirsig := %s |}",
-							emit.Str(mb), emit.Bool(ep.redirect), emit.Bool(ep.post), emit.Str(method), ktOf(kf.key), clsN, emit.Bool(xmlSig), emit.Bool(redirSig)),
+						Term: fmt.Sprintf("{| mw_mbinding := %s; mw_has_redirect := %s; mw_has_post := %s; mw_sign_request := %s; mw_default := %s; mw_method := %s; mw_kt := %d; mw_cls := %d; mw_xmlsig := %s; mw_redirsig := %s |}",
+							emit.Str(mb), emit.Bool(ep.redirect), emit.Bool(ep.post), emit.Bool(sv >= 1), emit.Bool(sv <= 1), emit.Str(method), ktOf(kf.key), clsN, emit.Bool(xmlSig), emit.Bool(redirSig)),
 						ImplSpecOK: specOK,
 					})
 				}
